@@ -10,9 +10,13 @@ Nm(t) == "N" \o ToString(t)
 F(name, ref, tn, docs) == [name |-> name, ty |-> ref, tn |-> tn, docs |-> docs]
 ShapeDef(t, cs, sel) ==
   LET k == Len(cs) IN
-  CASE k = 0 /\ sel % 3 = 0 -> [tag |-> "primitive", prim |-> "u8"]
-    [] k = 0 /\ sel % 3 = 1 -> [tag |-> "composite", fields |-> <<>>]
-    [] k = 0 /\ sel % 3 = 2 -> [tag |-> "variant", variants |-> <<[name |-> "A", fields |-> <<>>, index |-> 7, docs |-> <<"dv">>]>>]
+  CASE k = 0 /\ sel % 6 = 0 -> [tag |-> "primitive", prim |-> "u8"]
+    [] k = 0 /\ sel % 6 = 1 -> [tag |-> "composite", fields |-> <<>>]
+    [] k = 0 /\ sel % 6 = 2 -> [tag |-> "variant", variants |-> <<[name |-> "A", fields |-> <<>>, index |-> 7, docs |-> <<"dv">>]>>]
+    \* (selectors 3..5 are reached by callers that salt the selector of leaf nodes: MC_Retain)
+    [] k = 0 /\ sel % 6 = 3 -> [tag |-> "tuple", tys |-> <<>>]                       \* the unit type
+    [] k = 0 /\ sel % 6 = 4 -> [tag |-> "variant", variants |-> <<>>]                \* an enum without variants
+    [] k = 0 /\ sel % 6 = 5 -> [tag |-> "primitive", prim |-> "u256"]
     [] k = 1 /\ sel % 4 = 0 -> [tag |-> "sequence", ty |-> cs[1]]
     [] k = 1 /\ sel % 4 = 1 -> [tag |-> "array", len |-> IF t % 2 = 0 THEN 0 ELSE 3, ty |-> cs[1]]      \* also the empty array: it still refers to its element type
     [] k = 1 /\ sel % 4 = 2 -> [tag |-> "compact", ty |-> cs[1]]
